@@ -48,7 +48,8 @@ pub struct InnerLocustDB {
     wal_size: (Mutex<u64>, Condvar),
     pending_wal_flushes: (Mutex<Vec<mpsc::Sender<()>>>, Condvar),
     /// Set when a WAL flush was aborted by a panic. Rows may then exist only in the WAL (and in memory),
-    /// so from then on no flush advances the WAL cursor or deletes WAL segments or partition files.
+    /// so from then on no flush advances the WAL cursor, deletes WAL segments or partition files, or
+    /// compacts partitions. Buffers are still turned into partitions and persisted.
     wal_flush_failed: AtomicBool,
 
     opts: Options,
@@ -432,6 +433,12 @@ impl InnerLocustDB {
 
         // Write new segments from compactions to storage and apply compaction in-memory
         let span_compaction = tracer.start_span("compaction");
+        if self.wal_flush_failed.load(Ordering::SeqCst) {
+            // A flush that was aborted half way can leave partitions in memory that never reached the
+            // partition files and the metastore. Compaction assumes that every partition it merges is
+            // known to the metastore, so it is switched off together with the WAL clean-up.
+            compactions.clear();
+        }
         let (tx, rx) = mpsc::channel();
         let num_compactions = compactions.len();
         for (table, id, range, parts) in compactions {
